@@ -76,9 +76,10 @@ let show_result (r : result) : string =
   | RVal v -> show_value v
   | RNext (k, v, ok) -> show_value k ^ "," ^ show_value v ^ "," ^ (if ok then "ok" else "invalid")
   | RLen n -> hex_of_nat n
-  | REq (e, r, same) ->
+  | REq (e, r, same, same_big) ->
     let b x = if x then "1" else "0" in
-    "q" ^ b e ^ b r ^ (match same with None -> "-" | Some x -> b x)
+    let o = function None -> "-" | Some x -> b x in
+    "q" ^ b e ^ b r ^ o same ^ o same_big
   | RWalk (vis, s) -> (match s with WEnd -> "end" | WInvalid -> "invalid" | WCap -> "cap") ^ ":" ^ show_pairs vis
 
 let show_sres (r : sres) : string =
